@@ -1,6 +1,6 @@
 // f_copier.cpp — family "copier": QHttpEngine::QIODeviceCopier with scripted devices (C14, C08)
 //   case ::= ( content seq bs from to (fopen_src fopen_dst fseek fread fwrite) ops )
-//   op   ::= (0) start | (1) turn | (2) stop | (3 bytes) feed | (4) finish | (5 n) setBufferSize
+//   op   ::= (0) start | (1) turn | (2) stop | (3 bytes) feed | (4) finish | (5 n) setBufferSize | (6 n) the destination flushes n buffered bytes | (7) the destination dies
 //   log  ::= (20 k) op marker | (1 bytes) destination write | (2) error | (3) finished
 #include <QBuffer>
 #include <QCoreApplication>
@@ -9,7 +9,7 @@
 using namespace QHttpEngine;
 
 namespace {
-struct Flags { bool openSrc, openDst, seek, read, write; qint64 cap = 0; };      // cap: the source hands out at most cap bytes per read call
+struct Flags { bool openSrc, openDst, seek, read, write; qint64 cap = 0; bool buffering = false; };      // cap: the source hands out at most cap bytes per read call
 
 class RecDst : public QIODevice
 {
@@ -21,12 +21,18 @@ protected:
     qint64 readData(char *, qint64) override { return -1; }
     qint64 writeData(const char *data, qint64 len) override
     {
-        if (mF.write) return -1;
+        if (mF.write || mDead) return -1;
         if (len > 0) mLog->add(Val::List({Val::Int(1), Val::Bytes(QByteArray(data, int(len)))}));
+        if (mF.buffering) mPending += len;
         return len;
     }
+public:
+    // a destination that buffers (a socket whose peer reads slowly): what was accepted stays "to be written" until it is flushed
+    qint64 bytesToWrite() const override { return mPending + QIODevice::bytesToWrite(); }
+    void flushSome(qint64 n) { n = qMin(n, mPending); if (n > 0) { mPending -= n; Q_EMIT bytesWritten(n); } }
+    void die() { mDead = true; mPending = 0; }       // the peer is gone: the buffer is dropped without a notification, writes fail from now on
 private:
-    Val *mLog; Flags mF;
+    Val *mLog; Flags mF; qint64 mPending = 0; bool mDead = false;
 };
 
 class RandSrc : public QBuffer
@@ -77,6 +83,7 @@ static Val run_copier(const Val &c)
     Flags f{c.at(5).at(0).asInt() != 0, c.at(5).at(1).asInt() != 0, c.at(5).at(2).asInt() != 0,
             c.at(5).at(3).asInt() != 0, c.at(5).at(4).asInt() != 0};
     if (c.at(5).size() > 5) f.cap = c.at(5).at(5).asInt();
+    if (c.at(5).size() > 6) f.buffering = c.at(5).at(6).asInt() != 0;
     RecDst dst(&log, f);
     RandSrc rnd(&content, f);
     SeqSrc sq(f);
@@ -97,6 +104,8 @@ static Val run_copier(const Val &c)
             case 3: if (seq) sq.feed(op.at(1).asBytes()); break;
             case 4: if (seq) sq.finish(); break;
             case 5: copier.setBufferSize(op.at(1).asInt()); break;
+            case 6: dst.flushSome(op.at(1).asInt()); break;
+            case 7: dst.die(); break;
             default: throw std::runtime_error("badcase");
             }
         }
